@@ -29,6 +29,21 @@ def dim_of(F, cls):
     return t[0]
 
 
+def writes_numeric(body):
+    """does the statement tree store into anything that is not a truth value?"""
+    for x in walk(body):
+        k = x.get("k")
+        if k == "assign":
+            t = (x.get("l") or {}).get("t") or x.get("lt") or {}
+            if t.get("c") != "bool":
+                return True
+        elif k == "un" and x.get("op") in ("++", "--"):
+            return True
+        elif k == "call" and (callee(x).get("op") in ("=", "+=", "-=", "*=", "/=", "<<") or callee(x).get("name") in ("noalias", "setZero", "setConstant", "fill", "push_back", "emplace_back")) and "obj" in x:
+            return True
+    return False
+
+
 def scan_function(f, dim):
     """[(node, why)] coordinate accesses outside a uniform component loop"""
     out = []
@@ -47,10 +62,13 @@ def scan_function(f, dim):
         if not isinstance(n, dict):
             return
         k = n.get("k")
+        # an early exit from a coordinate loop that accumulates or stores numeric data couples the coordinates: whether a
+        # later coordinate contributes depends on an earlier one.  (A loop that only computes a truth value - any / all
+        # over the coordinates - may stop early: the result does not depend on the order.)
         if k == "break" and loops and loops[-1]:
-            out.append((n, "a coordinate loop that stops early: whether later coordinates are processed depends on an earlier one"))
+            out.append((n, "a coordinate loop that stores or accumulates data stops early: whether later coordinates are processed depends on an earlier one"))
         if k == "return" and any(loops):
-            out.append((n, "return from inside a coordinate loop: later coordinates are processed only if earlier ones do not return"))
+            out.append((n, "return from inside a coordinate loop that stores or accumulates data: later coordinates are processed only if earlier ones do not return"))
         if k in ("while", "do", "rfor"):
             loops.append(False)
             try:
@@ -81,7 +99,7 @@ def scan_function(f, dim):
             rec(n.get("init"), comp_vars)
             rec(n.get("cond"), comp_vars)
             rec(n.get("inc"), comp_vars)
-            loops.append(len(cv) > len(comp_vars))
+            loops.append(len(cv) > len(comp_vars) and writes_numeric(n.get("body")))
             try:
                 rec(n.get("body"), cv)
             finally:
